@@ -220,6 +220,18 @@ let handle (fields : string list) : string * string =
         else if m = impl then "ok" else "fail:handshake-differs"
       | _ -> "fail:no-response" in
     (m, verdict)
+  | "tunnelauthgw" :: redir :: idle :: pkts :: impl :: [] ->
+    (* the real binary: handshake, tunnel create, tunnel authorization on a fresh tunnel; impl = raw responses *)
+    let cfg = { c_token_auth = false; c_smartcard = false; c_cookie_cb = false; c_name_cb = false; c_host_cb = true;
+                c_redir = parse_redir redir; c_idle = z_of_int (int_of_string idle) } in
+    let items = List.map (fun h -> RData (bytes_of_hex h, parse_answers "1111")) (split_on ',' pkts) @ [RErr] in
+    let raws = List.filter_map (function Resp (_, _, raw) -> Some (hex_of_bytes raw) | _ -> None) (Model.run cfg items) in
+    let m = String.concat "," raws in
+    (m, if m = impl then "ok"
+        else match List.rev (split_on ',' impl), List.rev raws with
+          | i :: _, r :: _ when List.length (split_on ',' impl) = List.length raws && i <> r ->
+            "fail:tunnel-authorization-response-differs-from-the-configured-policy"
+          | _ -> "fail:responses-differ")
   | "process" :: bits :: redir :: idle :: live :: items :: impl :: [] ->
     let cfg = parse_cfg bits redir idle in
     let live = if live = "-" then [] else List.map bytes_of_hex (split_on ',' live) in
